@@ -14,19 +14,43 @@ every kind of whitespace, other scripts, emoji, NUL), (b) shape-forcing sub-gene
 command, stray start syllables with/without a later end syllable of their class, dots after the area began, second hearts in a slot, \
 newlines inside heads), (c) single commands with area chains of up to 4096 operators; each parsed by the implementation and by the \
 reference parser and compared per command on kind, syllable count, dot count, area tree (prefix and infix form), line:column and raw text; \
-non-trivial = >= 2 commands, >= 1 ignorable non-whitespace character, and a command with a multi-syllable head or a non-empty area; distinct = distinct string";
+(d) a sample of (a), (b) and junk-rendered programs written to a source file - part of them behind ASCII filler that puts a multi-byte character across a multiple of 512 B ... 1 MiB - and listed by `hyeong check`: count, index, kind, counts, area and line:column per listing line against the reference parser; non-trivial = >= 2 commands, >= 1 ignorable non-whitespace character, and a command with a multi-syllable head or a non-empty area; distinct = distinct string";
 
 #[derive(Clone, Debug)]
 pub struct Case4 {
     pub text: String,
+    /// `Some((boundary, pick))`: the text goes through a source FILE and `hyeong check`; with boundary > 0 ASCII filler is put in
+    /// front so that the `pick`-th multi-byte character of the text lies across that byte offset of the file
+    pub file: Option<(usize, u16)>,
+}
+
+impl Case4 {
+    fn of(text: String) -> Case4 {
+        Case4 { text, file: None }
+    }
+    fn file_text(&self) -> String {
+        match self.file {
+            Some((b, pick)) if b > 0 => super::c08::pad_to_boundary(&self.text, b, pick).unwrap_or_else(|| self.text.clone()),
+            _ => self.text.clone(),
+        }
+    }
 }
 
 impl Case for Case4 {
     fn to_json(&self) -> Value {
-        json!({"text": self.text, "escaped": self.text.escape_unicode().to_string()})
+        match self.file {
+            None => json!({"text": self.text, "escaped": self.text.escape_unicode().to_string()}),
+            Some((b, pick)) => json!({"text": self.text, "escaped": self.text.escape_unicode().to_string(), "file": true, "boundary": b, "pick": pick,
+                "note": "written to a .hyeong file (behind ASCII filler when boundary > 0) and listed by `hyeong check`"}),
+        }
     }
     fn from_json(v: &Value) -> Option<Self> {
-        Some(Case4 { text: v.get("text")?.as_str()?.to_string() })
+        let file = if v.get("file").and_then(|x| x.as_bool()).unwrap_or(false) {
+            Some((v.get("boundary")?.as_u64()? as usize, v.get("pick")?.as_u64()? as u16))
+        } else {
+            None
+        };
+        Some(Case4 { text: v.get("text")?.as_str()?.to_string(), file })
     }
 }
 
@@ -202,26 +226,95 @@ pub fn check(c: &Case4, st: &mut Stats) -> CheckResult {
     compare(&c.text, Some(st))
 }
 
+/// the same comparison through the binary: the text is a source file, `hyeong check` lists what the parser saw
+pub fn check_file(c: &Case4, st: &mut Stats, bin: &std::path::Path, scratch: &std::path::Path) -> CheckResult {
+    use crate::proc;
+    let text = c.file_text();
+    let want = ref_parse(&text);
+    let dir = proc::scratch_dir(scratch, "c04");
+    let file = dir.join("p.hyeong");
+    std::fs::write(&file, &text).map_err(|e| Failure::new("harness:io", e.to_string()))?;
+    let o = proc::run(bin, &["--color", "never", "check", file.to_str().unwrap()], &proc::RunOpts::new(b"")).map_err(|e| Failure::new("harness:spawn", e.to_string()))?;
+    let _ = std::fs::remove_dir_all(&dir);
+    if o.status == proc::Status::Timeout {
+        fail!("harness:timeout", "check timed out");
+    }
+    ensure!(o.status == proc::Status::Code(0), "c04:file-status", "`hyeong check` ended with {:?} on a UTF-8 source file, stderr {:?}", o.status, o.err_str());
+    let out = o.out_str();
+    let lines: Vec<&str> = out.lines().filter(|l| l.trim_start().chars().next().map(|c| c.is_ascii_digit()).unwrap_or(false)).collect();
+    ensure!(lines.len() == want.len(), "c04:file-count", "`hyeong check` lists {} commands, the grammar defines {} for the file content", lines.len(), want.len());
+    for (i, (line, w)) in lines.iter().zip(want.iter()).enumerate() {
+        let (idx, l, col, kind, h, d, area) = match super::c08::parse_listing_line(line, "p.hyeong") {
+            Some(x) => x,
+            None => fail!("c04:file-listing", "listing line {:?} cannot be read back", line),
+        };
+        ensure!(idx == i, "c04:file-listing", "listing line {} carries index {}", i, idx);
+        ensure!(
+            kind == w.kind && h == w.h && d == w.d && area == w.area,
+            "c04:file-listing",
+            "listing line {:?} is not the command {}_{}_{} {} the grammar defines at position {}",
+            line,
+            ONE_SYLLABLE[w.kind as usize],
+            w.h,
+            w.d,
+            w.area.prefix(),
+            i
+        );
+        ensure!((l, col) == w.loc, "c04:file-location", "listing line {:?} shows {}:{} but the command is at {:?}", line, l, col, w.loc);
+    }
+    st.class("file listings compared");
+    if text.len() > c.text.len() {
+        st.class("file: multi-byte character across a block-size multiple");
+    }
+    if want.len() >= 2 && want.iter().any(|c| c.h >= 2 || !c.area.is_nil()) {
+        let sample_text: String = c.text.chars().take(200).collect();
+        st.nontrivial(&(&c.text, c.file), || json!({"file_text_tail": sample_text, "file_bytes": text.len(), "commands": want.len()}));
+    }
+    Ok(())
+}
+
 pub fn run(ctx: &Ctx, out: &mut Outcome) {
     let t = ctx.tier;
     let n = t.pick(60, 400);
-    search::<Case4>(ctx, out, "free", t.pick(150_000, 1_500_000), &move || free_string(n).prop_map(|text| Case4 { text }).boxed(), &check);
-    search::<Case4>(ctx, out, "shaped", t.pick(200_000, 2_000_000), &|| shaped_string().prop_map(|text| Case4 { text }).boxed(), &check);
-    search::<Case4>(ctx, out, "free-short", t.pick(150_000, 1_000_000), &|| free_string(12).prop_map(|text| Case4 { text }).boxed(), &check);
-    search::<Case4>(ctx, out, "deep-area", t.pick(300, 3_000), &|| deep_area(4096).prop_map(|text| Case4 { text }).boxed(), &check);
+    search::<Case4>(ctx, out, "free", t.pick(150_000, 1_500_000), &move || free_string(n).prop_map(Case4::of).boxed(), &check);
+    search::<Case4>(ctx, out, "shaped", t.pick(200_000, 2_000_000), &|| shaped_string().prop_map(Case4::of).boxed(), &check);
+    search::<Case4>(ctx, out, "free-short", t.pick(150_000, 1_000_000), &|| free_string(12).prop_map(Case4::of).boxed(), &check);
+    search::<Case4>(ctx, out, "deep-area", t.pick(300, 3_000), &|| deep_area(4096).prop_map(Case4::of).boxed(), &check);
     // rendered programs with junk (shares the C08 renderer): grammar-valid texts
     search::<Case4>(
         ctx,
         out,
         "rendered",
         t.pick(40_000, 300_000),
-        &|| super::c08::rendered_strategy(10, false).prop_map(|(_, _, text)| Case4 { text }).boxed(),
+        &|| super::c08::rendered_strategy(10, false).prop_map(|(_, _, text)| Case4::of(text)).boxed(),
         &check,
+    );
+    // the same texts as source files through `hyeong check` (second observation point of the property); a part of them behind
+    // filler that puts a multi-byte character across a multiple of the block sizes a file reader may use
+    let bin = ctx.hyeong_bin();
+    let scratch = ctx.scratch.clone();
+    search::<Case4>(
+        ctx,
+        out,
+        "file-listing",
+        t.pick(1_200, 10_000),
+        &|| {
+            let text = prop_oneof![2 => free_string(60), 3 => shaped_string(), 2 => super::c08::rendered_strategy(10, false).prop_map(|(_, _, text)| text)];
+            let boundary = prop_oneof![
+                12 => Just(0usize),
+                2 => prop::sample::select(vec![512usize, 4096, 8192, 16384, 65536, 131072, 1 << 20]),
+                1 => (1usize..=16).prop_map(|k| k * 8192),
+            ];
+            (text, boundary, any::<u16>()).prop_map(|(text, b, pick)| Case4 { text, file: Some((b, pick)) }).boxed()
+        },
+        &move |c, st| check_file(c, st, &bin, &scratch),
     );
 }
 
-pub fn replay(_ctx: &Ctx, v: &Value) -> Result<CheckResult, String> {
-    replay_case::<Case4>(v, &check)
+pub fn replay(ctx: &Ctx, v: &Value) -> Result<CheckResult, String> {
+    let bin = ctx.hyeong_bin();
+    let scratch = ctx.scratch.clone();
+    replay_case::<Case4>(v, &move |c, st| if c.file.is_some() { check_file(c, st, &bin, &scratch) } else { check(c, st) })
 }
 
 pub fn gates(out: &Outcome, tier: Tier) -> Vec<String> {
@@ -237,6 +330,8 @@ pub fn gates(out: &Outcome, tier: Tier) -> Vec<String> {
         ("command on a later line at column > 0", 3000),
         ("multi-syllable head", 10000),
         ("commands: 6+", 3000),
+        ("file listings compared", 1000),
+        ("file: multi-byte character across a block-size multiple", 100),
     ] {
         if out.stats.get(class) < min * m {
             v.push(format!("class '{}' has {} cases, need >= {}", class, out.stats.get(class), min * m));
